@@ -67,6 +67,11 @@ def make_items():
     # stack headers whose own flag word has other declared bits set (PC fix-up, truncated, 64-bit, ...): the frames are still the first N words
     items.append(('samp-hdr', 4, tuple(WORDS[3:11]), 0x101))
     items.append(('samp-hdr', 8, tuple(WORDS[3:11]), 0x1ff))
+    # header counts with the top bit set (more frames announced than any window holds: all words present are frames)
+    items.append(('samp', 2 ** 63, tuple(WORDS[:4]), None))
+    items.append(('samp', 2 ** 64 - 1, tuple(WORDS[3:11]), None))
+    # a sample that overlaps a call of the same thread without nesting: read.START sample.START ... read.END sample.END
+    items.append(('samp-cross', 5, tuple(WORDS[2:10]), None))
     # un-map records are not announcements
     items.append(('unmap', 0x2001, 1, [img_event(0x2001, 1, kind='DYLD_uuid_unmap_a')]))
     items.append(('unmap', 0x0800, 0, [img_event(0x0800, 0, kind='DYLD_uuid_unmap_a')]))
@@ -83,6 +88,9 @@ def events_of(it):
         return sample_events(it[1], it[2], hflags=it[3])
     if it[0] == 'samp':
         return sample_events(it[1], it[2])
+    if it[0] == 'samp-cross':
+        evs = sample_events(it[1], it[2])
+        return [E.ev('BSC_read', 1, (3, 0x7000, 64, 0))] + evs[:-1] + [E.ev('BSC_read', 2, (0, 63, 0, 0))] + evs[-1:]
     if it[0] == 'samp-noflag':
         return sample_events(it[1], it[2], flags=1)
     if it[0] == 'samp-unfinished':
@@ -133,7 +141,7 @@ def ref(seq):
             for a, u, kind in sorted(it[1], key=lambda x: (x[2] != 'a', x[0])):
                 if all(x != a for x, _ in imgs):
                     imgs.append((a, uuid.UUID(bytes=U[u])))
-        elif it[0] in ('samp', 'samp-tid2', 'samp-mixed', 'samp-hdr'):
+        elif it[0] in ('samp', 'samp-tid2', 'samp-mixed', 'samp-hdr', 'samp-cross'):
             words = list(it[2]) + [0] * ((-len(it[2])) % 4)
             frames = words[:it[1]]
             fr = []
@@ -143,7 +151,7 @@ def ref(seq):
                     if a <= f and (best is None or a > best[0]):
                         best = (a, u)
                 fr.append((f, best[1], f - best[0]) if best else (f, None, None))
-            out.append((pos, 2 if it[0] == 'samp-tid2' else 1, fr))
+            out.append((pos + (1 if it[0] == 'samp-cross' else 0), 2 if it[0] == 'samp-tid2' else 1, fr))
         pos += n_ev
     return out
 
